@@ -1232,6 +1232,7 @@ func init() {
 	specs = append(specs, ribRegistrySpecs...)
 	specs = append(specs, fluentBuilderSpecs...)
 	specs = append(specs, fluentModifySpecs...)
+	specs = append(specs, reconOpSpecs...)
 }
 
 // ---- the fluent builders (fluent/fluent.go)
@@ -1421,5 +1422,38 @@ var fluentModifySpecs = func() []fnSpec {
 			oracles: map[string]oracle{"g.parent.c.Q": {results: []string{}, effect: "flQTok"}},
 			effects: true, builder: true,
 		},
+	}
+}()
+
+// ---- the reconciler's operation builders (rib/reconciler/reconcile.go): the five functions that
+// wrap a converted entry into an AFTOperation (oracles `mk4` … of `diff`'s translation)
+
+var reconOpSpecs = func() []fnSpec {
+	mk := func(goName, lean, eType, conv string) fnSpec {
+		return fnSpec{
+			file: "rib/reconciler/reconcile.go", goName: goName, callAs: "-", leanName: lean,
+			params: []param{
+				{goName: "method", goType: "spb.AFTOperation_Operation", lean: "method", kd: kEnum},
+				{goName: "ni", goType: "string", lean: "ni", kd: kStr},
+				{goName: "id", goType: "*atomic.Uint64", lean: "id", kd: kPtr("Unit"), skip: true},
+				{goName: "e", goType: eType, lean: "e", kd: kPtr("Unit"), skip: true},
+			},
+			goRets: "*spb.AFTOperation, error", rets: []string{"ptr:ReconOpX", "err"},
+			oracleParams: []param{
+				{goName: "§idNow", lean: "idNow", kd: kNat},
+				{goName: "§conv", lean: "conv", kd: kPtr("ConvTok")},
+				{goName: "§convErr", lean: "convErr", kd: kind{k: "statusval"}},
+			},
+			oracles: map[string]oracle{conv: {results: []string{"§conv", "§convErr"}, errOf: true}},
+			subst:   map[string]string{"id.Load()": "§idNow"},
+			typeMap: map[string]string{"AFTOperation": "ReconOpX"}, oneofView: "ReconEntryX",
+		}
+	}
+	return []fnSpec{
+		mk("v4Operation", "reconV4Operation", "*aft.Afts_Ipv4Entry", "rib.ConcreteIPv4Proto"),
+		mk("v6Operation", "reconV6Operation", "*aft.Afts_Ipv6Entry", "rib.ConcreteIPv6Proto"),
+		mk("nhgOperation", "reconNhgOperation", "*aft.Afts_NextHopGroup", "rib.ConcreteNextHopGroupProto"),
+		mk("nhOperation", "reconNhOperation", "*aft.Afts_NextHop", "rib.ConcreteNextHopProto"),
+		mk("mplsOperation", "reconMplsOperation", "*aft.Afts_LabelEntry", "rib.ConcreteMPLSProto"),
 	}
 }()
